@@ -242,7 +242,8 @@ def get_breadcrumbs(node):
     result = []
     node = node.parent
     while node.parent:
-        if node.prompt:
+        # Menus with an excluded name get no heading (and therefore no anchor), so they must not be linked either.
+        if node.prompt and not (node_is_menu(node) and node.prompt[0] in EXCLUDED_MENU_NAMES):
             result = [f":ref:`{get_link_anchor(node)}`"] + result
         node = node.parent
     return " > ".join(result)
